@@ -514,7 +514,12 @@ def page_valid(chk, P, E, rule):
                 else:
                     for t in P.call_targets(F, e):
                         if t in fetchers:
-                            pi, pos_cls, neg_cls = fetchers[t], 'nonneg', 'neg'
+                            pi = fetchers[t]
+                            # an int result is a status (0 = done), a wider one an offset (>= 0 = found)
+                            if P.fn[t].d.get('ret_t', '').strip() == 'int':
+                                pos_cls, neg_cls = 'zero', 'nonzero'
+                            else:
+                                pos_cls, neg_cls = 'nonneg', 'neg'
                 if pi is None or pi >= len(args):
                     return None
                 v_ = _addr_of_var(F, args[pi])
@@ -529,10 +534,14 @@ def page_valid(chk, P, E, rule):
                         nv = V(0, 2 ** 63 - 1)
                     elif cls == 'neg':
                         nv = V(-2 ** 63, -1)
+                    elif cls == 'zero':
+                        nv = V(0, 0)
+                    elif cls == 'nonzero':
+                        nv = V(-2 ** 31, 2 ** 31 - 1, ne=frozenset({0}))
                     else:
                         nv = k6.class_value(cls, (-2 ** 63, 2 ** 63 - 1))
                     if cur is not None:
-                        nv = cur.copy(lo=max(cur.lo, nv.lo), hi=min(cur.hi, nv.hi))
+                        nv = cur.copy(lo=max(cur.lo, nv.lo), hi=min(cur.hi, nv.hi), ne=frozenset(cur.ne) | frozenset(nv.ne))
                         if nv.is_bottom():
                             continue
                     tmp[e] = nv
@@ -548,6 +557,9 @@ def page_valid(chk, P, E, rule):
                             e2[pkey(v_)] = pre[1][v_]
                     e2['$flags'] = fl
                     outs.append(e2)
+                import os as _os
+                if _os.environ.get('PS_DEBUG') and A.final:
+                    print('FORK', F.name, F.s(e), [(o.get('$flags'), (o.get('$tmp') or {}).get(e)) for o in outs])
                 return outs
         h = H([])
 
@@ -587,13 +599,18 @@ def page_valid(chk, P, E, rule):
                 changed = True
         if not changed:
             break
+    chk.notes.append(f"{rule}: fetch helpers (verified): {sorted(P.fn[k].name for k in fetchers)}")
     for k, (F, uses, rets, pid) in sorted(results.items()):
         if k not in fetchers:
             continue
         # only helpers whose int result is an offset/ordinal (>= 0 means "a page is in *og"): those that fetch on every nonneg path
-        bad = [(e, v) for (e, fl, v) in rets if v is not None and v.hi >= 0 and v.lo >= 0 and ('V', pid) not in fl]
+        status = F.d.get('ret_t', '').strip() == 'int'
+        if status:
+            bad = [(e, v) for (e, fl, v) in rets if v is not None and v.lo <= 0 <= v.hi and 0 not in v.ne and v.lo == 0 == v.hi and ('V', pid) not in fl]
+        else:
+            bad = [(e, v) for (e, fl, v) in rets if v is not None and v.hi >= 0 and v.lo >= 0 and ('V', pid) not in fl]
         n += 1
-        chk.ob(rule, F.name, 'non-negative-return-hands-out-a-valid-page', not bad, F.where(bad[0][0]) if bad else F.where(),
+        chk.ob(rule, F.name, 'success-return-hands-out-a-valid-page', not bad, F.where(bad[0][0]) if bad else F.where(),
                'every return that can be non-negative is reached with the page valid' if not bad else
                f'`{F.s(bad[0][0])}` (value {bad[0][1]}) is reachable with the page in *{[p["name"] for p in F.params if p["id"] == pid][0]} not '
                'valid: a fetch that found nothing (and may have moved the sync buffer) came after the fetch that filled it')
